@@ -36,7 +36,7 @@ PLANS = {
     "C09": {"quick": [seq("thr-mixed", 100000), seq("thr-iter", 30000), seq("burst", 5000), seq("seq-long", 4000), seq("thr-sweep", 19200), seq("thr-warm", 30000), seq("thr-iter-mixed", 30000), seq("thr-inval", 20000), seq("thr-long", 15000)],
             "thorough": [seq("thr-mixed", 1500000), seq("thr-iter", 400000), seq("burst", 80000), seq("seq-long", 60000), seq("thr-sweep", 384000), seq("thr-warm", 450000), seq("thr-iter-mixed", 450000), seq("thr-inval", 300000), seq("thr-long", 225000)]},
     "C08": {"quick": [seq("seq-mixed", 200000), seq("seq-long", 4000), seq("seq-callback", 60000), seq("seq-policy", 60000), seq("thr-mixed", 80000), seq("thr-iter", 30000), seq("burst", 2000), seq("seq-wide", 2000), seq("thr-callback", 40000), seq("thr-warm", 40000), seq("thr-iter-mixed", 30000), seq("thr-inval", 20000), seq("seq-huge", 40000), seq("thr-long", 15000)],
-            "thorough": [seq("seq-mixed", 2000000), seq("seq-long", 60000), seq("seq-callback", 600000), seq("seq-policy", 600000), seq("thr-mixed", 1200000), seq("thr-iter", 400000), seq("burst", 40000), seq("seq-wide", 30000), seq("seq-mixed", 300000, build="asan", env=ASAN), seq("seq-long", 20000, build="asan", env=ASAN), seq("seq-callback", 100000, build="asan", env=ASAN), seq("thr-mixed", 200000, build="asan", env=ASAN), seq("thr-iter", 60000, build="asan", env=ASAN), seq("burst", 4000, build="asan", env=ASAN), {"kind": "miri", "pop": "thr-mixed", "seed": 7, "from": 0, "to": 24, "miri_seeds": 16}, {"kind": "miri", "pop": "thr-iter", "seed": 7, "from": 0, "to": 8, "miri_seeds": 16}, {"kind": "miri", "pop": "thr-warm", "seed": 7, "from": 0, "to": 16, "miri_seeds": 16}, {"kind": "miri", "pop": "thr-inval", "seed": 7, "from": 0, "to": 12, "miri_seeds": 16}, {"kind": "miri", "pop": "thr-iter-mixed", "seed": 7, "from": 0, "to": 12, "miri_seeds": 16}, {"kind": "miri", "pop": "seq-mixed", "seed": 7, "from": 0, "to": 160, "miri_seeds": 1, "jobs": 8}, {"kind": "miri", "pop": "seq-policy", "seed": 7, "from": 0, "to": 96, "miri_seeds": 1, "jobs": 8}, {"kind": "miri", "pop": "seq-callback", "seed": 7, "from": 0, "to": 48, "miri_seeds": 1, "jobs": 8}, seq("thr-callback", 600000), seq("thr-callback", 100000, build="asan", env=ASAN), seq("thr-warm", 600000), seq("thr-iter-mixed", 450000), seq("thr-inval", 300000), seq("seq-huge", 600000), seq("thr-long", 225000)]},
+            "thorough": [seq("seq-mixed", 2000000), seq("seq-long", 60000), seq("seq-callback", 600000), seq("seq-policy", 600000), seq("thr-mixed", 1200000), seq("thr-iter", 400000), seq("burst", 40000), seq("seq-wide", 30000), seq("seq-mixed", 300000, build="asan", env=ASAN), seq("seq-long", 20000, build="asan", env=ASAN), seq("seq-callback", 100000, build="asan", env=ASAN), seq("thr-mixed", 200000, build="asan", env=ASAN), seq("thr-iter", 60000, build="asan", env=ASAN), seq("burst", 4000, build="asan", env=ASAN), {"kind": "miri", "pop": "thr-mixed", "seed": 7, "from": 0, "to": 24, "miri_seeds": 16}, {"kind": "miri", "pop": "thr-iter", "seed": 7, "from": 0, "to": 8, "miri_seeds": 16}, {"kind": "miri", "pop": "thr-warm", "seed": 7, "from": 0, "to": 16, "miri_seeds": 16}, {"kind": "miri", "pop": "thr-inval", "seed": 7, "from": 0, "to": 12, "miri_seeds": 16}, {"kind": "miri", "pop": "thr-iter-mixed", "seed": 7, "from": 0, "to": 12, "miri_seeds": 16}, {"kind": "miri", "pop": "thr-long", "seed": 7, "from": 0, "to": 8, "miri_seeds": 8, "jobs": 4}, {"kind": "miri", "pop": "seq-mixed", "seed": 7, "from": 0, "to": 160, "miri_seeds": 1, "jobs": 8}, {"kind": "miri", "pop": "seq-policy", "seed": 7, "from": 0, "to": 96, "miri_seeds": 1, "jobs": 8}, {"kind": "miri", "pop": "seq-callback", "seed": 7, "from": 0, "to": 48, "miri_seeds": 1, "jobs": 8}, seq("thr-callback", 600000), seq("thr-callback", 100000, build="asan", env=ASAN), seq("thr-warm", 600000), seq("thr-iter-mixed", 450000), seq("thr-inval", 300000), seq("seq-huge", 600000), seq("thr-long", 225000)]},
 }
 
 RULES = {
